@@ -7,6 +7,7 @@ import (
 	"fmt"
 	"go/token"
 	"go/types"
+	"os"
 	"sort"
 	"strings"
 
@@ -91,6 +92,10 @@ func (x *Exec) modOfInstr(ins ssa.Instruction, m *modSet, stack map[*ssa.Functio
 		} else {
 			m.keys[k] = true
 		}
+	case *ssa.MapUpdate:
+		for _, k := range mapModKeys(t.Map.Type()) {
+			m.keys[k] = true
+		}
 	case *ssa.Call:
 		x.modOfCall(&t.Call, m, stack)
 	case *ssa.Defer:
@@ -105,6 +110,15 @@ func (x *Exec) modOfCall(cc *ssa.CallCommon, m *modSet, stack map[*ssa.Function]
 		case "append", "copy", "clear":
 			if sl, ok := cc.Args[0].Type().Underlying().(*types.Slice); ok {
 				m.keys["E:"+typeKey(sl.Elem())+":"] = true
+			}
+			if _, ok := cc.Args[0].Type().Underlying().(*types.Map); ok {
+				for _, k := range mapModKeys(cc.Args[0].Type()) {
+					m.keys[k] = true
+				}
+			}
+		case "delete":
+			for _, k := range mapModKeys(cc.Args[0].Type()) {
+				m.keys[k] = true
 			}
 		}
 		return
@@ -298,7 +312,12 @@ func (x *Exec) loopHead(fr *frame, li *loopInfo, st *State) {
 	entryAlloc := st.alloc
 	pre := st.clone()
 	if m.all {
-		x.havocAll(st, fmt.Sprintf("loop %d of %s calls code without contract", li.ord, shortName(fr.fn)))
+		why := fmt.Sprintf("loop %d of %s calls code without contract", li.ord, shortName(fr.fn))
+		if x.loopKeepsPreserved(fr, li) {
+			x.keepPreserved(st, func() { x.havocAll(st, why) })
+		} else {
+			x.havocAll(st, why)
+		}
 	} else {
 		keys := sortedKeys(m.keys)
 		li.prefixGuards = map[string]Term{}
@@ -589,18 +608,18 @@ func (x *Exec) autoCandidates(fr *frame, li *loopInfo, pre, st *State, entryAllo
 				if !strings.HasPrefix(k, p) || li.headKeys[k] {
 					continue
 				}
-				excl := x.rootExcl(k)
-				if len(excl) == 0 {
-					continue // same as the unrestricted candidate
+				if x.root == nil || x.root.entrySt == nil {
+					continue
 				}
+				excl := x.rootExcl(k)
 				srt := c.heapKeys[k]
 				cur := x.heapGet(s, k, srt)
 				preArr := x.heapGet(pre, k, srt)
 				if cur.S == preArr.S {
 					continue
 				}
-				f := fmt.Sprintf("(forall ((r Int)) (! (=> (and (<= r %s) %s) (= (select %s r) (select %s r))) :pattern ((select %s r))))",
-					entryAlloc.S, strings.Join(excl, " "), cur.S, preArr.S, cur.S)
+				f := fmt.Sprintf("(forall ((r Int)) (! (=> (and (<= r %s) %s true) (= (select %s r) (select %s r))) :pattern ((select %s r))))",
+					x.root.entrySt.alloc.S, strings.Join(excl, " "), cur.S, preArr.S, cur.S)
 				parts = append(parts, Term{S: f, Sort: SBool, N: 12, UB: -1})
 			}
 			return and(parts...)
@@ -849,6 +868,9 @@ func (x *Exec) applyContract(fr *frame, st *State, site ssa.Instruction, con *Fn
 			if !strings.Contains(err.Error(), "unresolved name") && !strings.Contains(err.Error(), "function context") {
 				x.stale(fr, cl, err)
 			}
+			if os.Getenv("GOVC_DEBUG") != "" {
+				fmt.Fprintf(os.Stderr, "DEBUG ensures of %s skipped at call site: %v\n", shortKey(key), err)
+			}
 			continue
 		}
 		c.AddFact(st.pc, t, "ensures of "+shortKey(key))
@@ -886,14 +908,16 @@ func (x *Exec) contractHavoc(fr *frame, st, pre *State, con *FnContract, callee 
 		x.modOfContract(con, sig, ms)
 	}
 	if !con.HasMod || con.ModAny {
-		if ms.all {
-			x.havocAll(st, "call to "+shortKey(key)+" (contract without frame)")
-		} else {
-			for _, k := range sortedKeys(ms.keys) {
-				x.havocKey(st, k)
+		x.keepPreserved(st, func() {
+			if ms.all {
+				x.havocAll(st, "call to "+shortKey(key)+" (contract without frame)")
+			} else {
+				for _, k := range sortedKeys(ms.keys) {
+					x.havocKey(st, k)
+				}
+				x.bumpAlloc(st)
 			}
-			x.bumpAlloc(st)
-		}
+		})
 		return
 	}
 	// explicit frame: only the listed locations (and fresh memory) change
